@@ -1,4 +1,6 @@
 ''' C18 - The D-Bus view of transfers is type-correct and consistent with reality. '''
+import itertools
+
 from hypothesis import strategies as st
 
 from vlib import boot
@@ -8,6 +10,9 @@ PROPERTY = 'C18'
 RULE = ('(tcpcl) two-endpoint histories as in C01/C09 (sends, pops, terminate, schedules, back-pressure) with user '
         'queries interleaved at every step: send_bundle_get_queue, recv_bundle_get_queue, recv_bundle_pop_data (valid, '
         'repeated, unknown id), is_sess_idle, get_session_parameters, get_session_state, is_secure, Agent.get_connections. '
+        '(refusal) a scripted peer refuses one of the endpoint own transfers while it is queued, in the middle of its segments, or '
+        'after its last segment and before the final ACK, then acknowledges the rest and optionally the refused one too (all '
+        '40 combinations enumerated): exactly one finished signal per transfer, empty send queue and idle afterwards.  '
         '(udpcl) a real UDPCL agent pair over an in-memory datagram socket: sends of generated sizes/MTUs, arrival '
         'permutations with repeats, pops (valid, repeated, unknown), queue queries and a polling message.  Every signal '
         'emission and method return passes through a model of dbus-python marshalling against the declared signature.  '
@@ -52,6 +57,11 @@ def strategy(tier):
         return st.one_of(tcp, tcp, um.cases().map(lambda c: dict(c, kind='udpcl')))
     except ImportError:
         return tcp
+
+
+def enumerate_cases(tier):
+    for case in refusal_cases():
+        yield case
 
 
 def pinned_cases():
@@ -172,8 +182,125 @@ def judge_tcpcl(trace, out):
     return mid_flight_query
 
 
+def refusal_cases():
+    for active, n_own, which, point, ack_after in itertools.product((False, True), (1, 2), (0, 1), ('sent', 'mid', 'queued'), (False, True)):
+        if which >= n_own:
+            continue
+        yield {'kind': 'refusal', 'active': active, 'own': [30, 12][:n_own], 'which': which, 'point': point, 'ack_after': ack_after}
+
+
+def execute_refusal(case, out):
+    ''' A scripted peer refuses one of the endpoint's own transfers (XFER_REFUSE, a legitimate message): while it is
+    still queued behind another one, in the middle of its segments, or after its last segment and before the final
+    ACK; it then acknowledges everything else and, optionally, the refused transfer as well (the ACK was already on
+    its way).  The D-Bus view must stay consistent. '''
+    from vlib import tcpcl_world as tw, ref9174 as r, strat9174 as s9
+    import dbus
+    active = bool(case['active'])
+    point = case['point']
+    # mid / queued need the endpoint to be held back: a small pipe that the peer reads only when it wants to
+    cap = None if point == 'sent' else 40
+    cfg = tw.make_config('dtn://real/', segment_size_tx_initial=10 if cap is None else 1000)
+    world = tw.World(cfg, scripted=True, real_is_passive=not active, cap_ab=cap if active else None, cap_ba=None if active else cap)
+    end = world.real
+    hdl = end.hdl
+    own = []
+    for idx, length in enumerate(case['own'][:2]):
+        data = s9.content(int(length) if cap is None else int(length) + 30000, idx + 1)
+        own.append((str(end.call('send_bundle_data', dbus.ByteArray(data))), data))
+    target = own[min(int(case['which']), len(own) - 1)][0]
+
+    def peer_reads():
+        for _ in range(400):
+            world.settle()
+            if not world.rx_pipe.readable:
+                break
+            del world.rx_pipe.readable[:]
+
+    def wire():
+        return r.parse_stream(world.real_wire())[0]
+    world.settle()
+    world.peer_send(r.encode({'t': 'CH', 'magic': r.MAGIC.hex(), 'version': 4, 'flags': 0}))
+    world.settle()
+    world.peer_send(r.encode({'t': 'SESS_INIT', 'keepalive': 0, 'segment_mru': 1000 if cap else 10, 'transfer_mru': 2 ** 40,
+                              'nodeid': 'dtn://peer/', 'ext': []}))
+    world.settle()
+    if point == 'sent':
+        peer_reads()          # everything is written, nothing acknowledged
+    elif point == 'mid':
+        # the peer reads just until the first segment of the target transfer is on the wire
+        for _ in range(4000):
+            if any(m['t'] == 'XFER_SEGMENT' and str(m['id']) == target for m in wire()):
+                break
+            world.settle()
+            if not world.rx_pipe.readable:
+                break
+            del world.rx_pipe.readable[:]
+    ended = set(m['id'] for m in wire() if m['t'] == 'XFER_SEGMENT' and m['flags'] & 1)
+    started = set(m['id'] for m in wire() if m['t'] == 'XFER_SEGMENT')
+    situation = 'sent' if int(target) in ended else ('mid' if int(target) in started else 'queued')
+    out.label('refused-when:' + situation)
+    world.peer_send(r.encode({'t': 'XFER_REFUSE', 'reason': 2, 'id': int(target)}))
+    peer_reads()
+    # the peer now acknowledges every segment (of the refused transfer only if ack_after)
+    acked = 0
+    for _ in range(400):
+        segs = [m for m in wire() if m['t'] == 'XFER_SEGMENT']
+        cum = {}
+        sent_any = False
+        for idx, seg in enumerate(segs):
+            if seg['flags'] & 2:
+                cum[seg['id']] = 0
+            cum[seg['id']] = cum.get(seg['id'], 0) + len(seg['data']) // 2
+            if idx >= acked:
+                acked = idx + 1
+                if str(seg['id']) == target and not case.get('ack_after'):
+                    continue
+                try:
+                    world.peer_send(r.encode({'t': 'XFER_ACK', 'flags': seg['flags'], 'id': seg['id'], 'length': cum[seg['id']]}))
+                    sent_any = True
+                except OSError:
+                    pass
+        peer_reads()
+        if not sent_any and acked == len([m for m in wire() if m['t'] == 'XFER_SEGMENT']):
+            break
+    for esc in world.escapes():
+        out.fail('escape:%s@%s' % (esc.exc_type, esc.frame), 'exception escaped an event-loop callback: %s: %s' % (esc.exc_type, esc.exc_msg[:120]))
+    for ev in dbus.RECORDER.events:
+        if ev.get('error') and ev['kind'] in ('signal', 'return'):
+            out.fail('does-not-marshal:%s' % ev['member'], '%s %s%r does not fit %r: %s' % (ev['kind'], ev['member'], ev.get('args'), ev.get('signature'), ev['error']))
+    desc = 'transfer %s refused when %s, ack afterwards %s, own transfers %s' % (target, situation, bool(case.get('ack_after')), [b for b, _d in own])
+    if end.sock.closed:
+        out.label('closed')
+        return
+    fin = {}
+    for ev in end.signals('send_bundle_finished'):
+        fin.setdefault(str(ev['args'][0]), []).append(ev['args'][2])
+    for bid, _data in own:
+        results = fin.get(bid, [])
+        if len(results) > 1:
+            out.fail('finished-twice', 'send_bundle_finished was signalled %d times for transfer %s: %s (%s)' % (len(results), bid, results, desc))
+        elif not results:
+            out.fail('never-finished', 'transfer %s has no finished signal although it was %s (%s)' % (bid, 'refused' if bid == target else 'acknowledged', desc))
+        elif bid == target and results[0] == 'success' and situation != 'sent':
+            out.fail('refused-reported-success', 'transfer %s was refused before its last segment left, yet reported %r (%s)' % (bid, results[0], desc))
+        elif bid != target and results[0] != 'success':
+            out.fail('other-transfer-affected', 'transfer %s was acknowledged completely but finished as %r (%s)' % (bid, results[0], desc))
+    queue = end.call('send_bundle_get_queue')
+    if not hasattr(queue, 'exc') and [str(x) for x in queue]:
+        out.fail('send-queue-lists-finished', 'send_bundle_get_queue() still lists %s after every transfer finished (%s)' % ([str(x) for x in queue], desc))
+    idle = end.call('is_sess_idle')
+    if not hasattr(idle, 'exc') and not idle and not world.escapes():
+        out.fail('never-idle-after-refusal', 'everything is finished and drained but is_sess_idle() is False (%s)' % desc)
+    out.nontrivial = True
+
+
 def execute(case):
     out = Outcome()
+    if case.get('kind') == 'refusal':
+        execute_refusal(case, out)
+        out.label('tcpcl-refusal')
+        return out
     if case.get('kind') == 'udpcl':
         from vlib import udpcl_machine as um
         um.judge_dbus(case, out)
